@@ -44,6 +44,7 @@ type pipeScenario struct {
 	ConsLatPm   int // per-mille chance the consumer sleeps (fake time) before taking the next batch
 	ConsLatMs   int
 	ScanBuf     int // override of batchers.ReadAheadBufferSize for this run (0: the tree's constant)
+	PoolDiv     int // divisor applied to the matchers' index-pool size (0/1: the tree's size, 1024 matches per block)
 }
 
 func (sc *pipeScenario) describe() map[string]any {
@@ -59,7 +60,7 @@ func (sc *pipeScenario) describe() map[string]any {
 		ins = append(ins, fmt.Sprintf("%s: %d bytes, %d lines%s", in.Name, len(in.Data), n, f))
 	}
 	return map[string]any{"stdin": sc.Stdin, "inputs": ins, "lines": total, "matcher": []string{"none", "regex", "dissect"}[sc.MatcherKind], "pattern": sc.Pattern,
-		"extract": sc.Extract, "ignore": sc.Ignores, "batch": sc.Batch, "workers": sc.Workers, "readers": sc.Readers, "buffer": sc.Buffer, "scanner_buffer": sc.ScanBuf}
+		"extract": sc.Extract, "ignore": sc.Ignores, "batch": sc.Batch, "workers": sc.Workers, "readers": sc.Readers, "buffer": sc.Buffer, "scanner_buffer": sc.ScanBuf, "index_pool_divisor": sc.PoolDiv}
 }
 
 var (
@@ -191,6 +192,11 @@ func genPipeScenario(rc *RunCtx, allowStdin bool, maxLinesPerInput int) *pipeSce
 	if t.FBool(3, 4) {
 		sc.ScanBuf = []int{1, 2, 3, 5, 8, 16, 17, 32, 64, 100, 256, 4096}[t.F(12)]
 	}
+	// the matchers' index pools hold 1024 matches per block; most runs shrink them so that refills (and
+	// anything that reuses a block while earlier matches are still held) happen within a few lines
+	if t.FBool(2, 3) {
+		sc.PoolDiv = []int{1024, 512, 341, 128}[t.F(4)]
+	}
 	// reader plans
 	for i := range sc.Inputs {
 		p := &simrt.ReadPlan{ErrAt: -1}
@@ -279,10 +285,14 @@ func (sc *pipeScenario) buildBatcher(s *simrt.Sim) *batchers.Batcher {
 
 // knobs returns the constant overrides of the scenario.
 func (sc *pipeScenario) knobs() map[string]int {
+	k := map[string]int{}
 	if sc.ScanBuf > 0 {
-		return map[string]int{"rare/pkg/extractor/batchers.ReadAheadBufferSize": sc.ScanBuf}
+		k["rare/pkg/extractor/batchers.ReadAheadBufferSize"] = sc.ScanBuf
 	}
-	return nil
+	if sc.PoolDiv > 1 {
+		k["rare/pkg/slicepool.NewIntPool"] = sc.PoolDiv
+	}
+	return k
 }
 
 func (sc *pipeScenario) installPlans(s *simrt.Sim) {
